@@ -1,5 +1,6 @@
 import AlgopyVerif.Proofs.Tape
 import AlgopyVerif.Proofs.Pullback
+import AlgopyVerif.Proofs.MatPullback
 /-!
 # C03 — reverse mode agrees with forward mode at every Taylor order
 
@@ -25,8 +26,15 @@ neg/scale, copy`, every unary function whose tangent is multiplication by `g = f
 correspondence run for 25 unary + 4 binary kernels) are these ring expressions in `R[t]/(t^D)`
 (`pbExp_spec, pbLog_spec, pbDiv_spec`).
 
+**Matrix pullbacks** (`matrix_*` below, `Proofs/MatPullback.lean`), over any commutative ring `S`
+(`= ℝ[t]/(t^D)`), with `⟪A,B⟫ = tr(AᵀB)`: `dot` (`Xbar = Zbar Yᵀ`, `Ybar = Xᵀ Zbar`), `inv`
+(`Xbar = -Yᵀ Ybar Yᵀ`, tangent `-Y dX Y` derived from `XY = 1`), `solve` (`Bbar = Yᵀ Zbar`,
+`Xbar = -Bbar Zᵀ`), `trace`, `transpose`, `det` (Jacobi's formula in algebraic form; `Xbar = ybar det(X) X⁻ᵀ`).
+The C03 run compares `pb_dot, pb_inv, pb_solve, pb_trace, pb_det` of the code with exactly these formulas
+evaluated in Taylor arithmetic.
+
 Not proved (partial): the lowering of the array-level tracer to tapes is argued, not mechanised;
-the local adjoint conditions of the matrix pullbacks (`inv, solve, det, logdet, qr, cholesky, lu,
+the local adjoint conditions of the factorization pullbacks (`logdet` through `lu2`, `qr, cholesky, lu,
 eigh, svd`) — those are checked on the implementation by the adjoint-identity oracle.
 -/
 open AV AV.Tape
@@ -66,6 +74,36 @@ theorem pullback_log_is_ring_expr (ybar x xbar : List K) (hx : co x 0 ≠ 0) (hl
 theorem pullback_div_is_ring_expr (zbar y z xbar ybar : List K) (hy : co y 0 ≠ 0) (hl : zbar.length = y.length) :
     pbDiv zbar y z xbar ybar = (addS xbar (mulS zbar (recipS y)), subS ybar (mulS (mulS zbar (recipS y)) z)) :=
   pbDiv_spec zbar y z xbar ybar hy hl
+end
+
+/-! ## matrix pullbacks -/
+section
+open Matrix AV.MatPB
+variable {S : Type} [CommRing S] {n m k : Type} [Fintype n] [Fintype m] [Fintype k]
+  [DecidableEq n] [DecidableEq m] [DecidableEq k]
+
+theorem matrix_dot_adjoint (X dX : Matrix n m S) (Y dY : Matrix m k S) (Zbar : Matrix n k S) :
+    pair Zbar (dX * Y + X * dY) = pair (Zbar * Yᵀ) dX + pair (Xᵀ * Zbar) dY := dot_adjoint X dX Y dY Zbar
+
+theorem matrix_inv_adjoint (X Y dX dY Ybar : Matrix n n S) (hYX : Y * X = 1) (hlin : dX * Y + X * dY = 0) :
+    pair Ybar dY = pair (-(Yᵀ * (Ybar * Yᵀ))) dX := by
+  rw [inv_tangent X Y dX dY hYX hlin]; exact inv_adjoint Y dX Ybar
+
+theorem matrix_solve_adjoint (X Y dX : Matrix n n S) (Z dZ dB Zbar : Matrix n k S) (hYX : Y * X = 1)
+    (hlin : dX * Z + X * dZ = dB) :
+    pair Zbar dZ = pair (Yᵀ * Zbar) dB + pair (-(Yᵀ * Zbar * Zᵀ)) dX := by
+  rw [solve_tangent X Y dX Z dZ dB hYX hlin]; exact solve_adjoint Y dX Z dB Zbar
+
+theorem matrix_trace_adjoint (dX : Matrix n n S) (ybar : S) :
+    ybar * dX.trace = pair (ybar • (1 : Matrix n n S)) dX := trace_adjoint dX ybar
+
+theorem matrix_transpose_adjoint (dX : Matrix n m S) (Ybar : Matrix m n S) : pair Ybar dXᵀ = pair Ybarᵀ dX :=
+  transpose_adjoint dX Ybar
+
+theorem matrix_det_adjoint (X Y dX : Matrix n n S) (hXY : X * Y = 1) (ybar r : S) :
+    (∃ c : S, (X + r • dX).det = X.det + X.det * (Y * dX).trace * r + c * r ^ 2)
+    ∧ ybar * (X.det * (Y * dX).trace) = pair ((ybar * X.det) • Yᵀ) dX :=
+  ⟨det_tangent X Y dX hXY r, det_adjoint X Y dX ybar⟩
 end
 
 /-- non-vacuity: a two-instruction tape `c2 := c0 * c1; c0 := c2` over ℤ satisfies `WF` -/
